@@ -64,10 +64,16 @@ def _partition_get(partition, cell):
     """Calculate free capacity for given partition.
     """
     try:
-        return _admin_partition().get([partition, cell])
+        part_obj = _admin_partition().get([partition, cell])
     except admin_exceptions.NoSuchObjectResult:
+        part_obj = None
+
+    if part_obj is None:
+        # (the LDAP backend returns None for a record that does not exist)
         # pretend partition has zero capacity
         return {'cpu': '0%', 'memory': '0G', 'disk': '0G', 'limits': []}
+
+    return part_obj
 
 
 def _check_capacity(cell, allocation, rsrc):
